@@ -165,6 +165,7 @@ type rewriter struct {
 	pkg       string
 	useChan   bool
 	useSched  bool
+	useML     bool
 	tmp       int
 	skip      map[ast.Node]bool
 	recv2     map[*ast.UnaryExpr]bool
@@ -206,6 +207,9 @@ func (r *rewriter) run() {
 		astutil.Apply(fd.Body, r.pre, r.post)
 	}
 	r.fallbackToReal()
+	if r.useML {
+		astutil.AddImport(r.fset, r.file, shimBase+"vml")
+	}
 	if r.useChan {
 		astutil.AddImport(r.fset, r.file, shimBase+"vchan")
 	}
@@ -436,6 +440,14 @@ func (r *rewriter) post(c *astutil.Cursor) bool {
 			c.Replace(&ast.ExprStmt{X: call(call(sel("vchan", "SendTo"), n.Chan), n.Value)})
 		}
 	case *ast.CallExpr:
+		// x.memberlist.Leave(d) / x.memberlist.UpdateNode(d): wall-clock waits inside memberlist (package vml)
+		if se, ok := n.Fun.(*ast.SelectorExpr); ok && len(n.Args) == 1 && (se.Sel.Name == "Leave" || se.Sel.Name == "UpdateNode") {
+			if inner, ok := se.X.(*ast.SelectorExpr); ok && inner.Sel.Name == "memberlist" {
+				r.useML = true
+				c.Replace(call(sel("vml", se.Sel.Name), se.X, n.Args[0]))
+				return true
+			}
+		}
 		if id, ok := n.Fun.(*ast.Ident); ok && id.Name == "close" && len(n.Args) == 1 {
 			if obj, ok := r.info.Uses[id]; !ok || obj == nil || obj.Parent() == types.Universe {
 				r.useChan = true
